@@ -40,7 +40,10 @@ pub fn check(t: &Trace<'_>, out: &mut CaseOut) -> bool {
         if ka > 0 && ci.stream_ok {
             for o in ops.iter().filter(|o| matches!(o.kind, "poll" | "recv" | "pollreply") && matches!(o.outcome, Outcome::CallerTimeout | Outcome::Watchdog)) {
                 let Some(sn) = &o.snap_before else { continue };
-                let due = sn.next_ping.is_some_and(|np| np <= o.t_call) && sn.ping_timeout.is_none();
+                // (a PINGREQ whose bytes went out in an earlier, abandoned call and that only
+                // awaits its flush is on the wire already)
+                let on_the_wire = sn.tx.control.iter().any(|c| c.kind == 12 && matches!(c.state, minimq::verif::VerifSend::Flush));
+                let due = sn.next_ping.is_some_and(|np| np <= o.t_call) && sn.ping_timeout.is_none() && !on_the_wire;
                 let consumed = w.events[o.ev_call..o.ev_ret].iter().any(|e| matches!(e, Ev::Consumed { .. }));
                 let busy = w.events[o.ev_call..o.ev_ret].iter().any(|e| matches!(e, Ev::SlowWrite { .. } | Ev::Io { ans: IoAns::Err(_) | IoAns::Eof | IoAns::Zero, .. }));
                 let fits = ci.mps.is_none_or(|m| m >= 2 && sn.tx.retained.iter().all(|e| e.len <= m as usize));
